@@ -15,6 +15,7 @@ Python source on every run into Gallina terms, and coqc proves that Model/Nnls.v
   admm_loop_body_stop   admm with n_const given, ENTRYWISE: the two arguments of tl.solve, the argument of proximal_operator, the new dual variable,
                     the matrices inside the two norm tests (Model/NnlsAdmm.v admm_body / admm_stop; entry lemmas in Proofs/NnlsProofsAdmmLoop.v)
   hals_callback_exact   `if exact:` sets (50000, 1e-16); the callback block sits after the row loop and before the reference / rule (= hals_loop_cb)
+  admm_order_default    `if order is None: order = 0` before the loop (repaired code a5b9e5b) = admm ... None = admm ... (Some 0)
   fista_momentum    momentum_old = 1.0; momentum = (1 + sqrt(1 + 4 momentum_old**2)) / 2 = Model/NnlsMomentum.v momentum_next; momentum_old = momentum
 (the structural parts of the last four are matched as ast patterns; their arithmetic is translated; all end in coqc goals about the model)
 Fail closed: a construct the translator does not know is a broken tie."""
@@ -853,6 +854,28 @@ def tie_fista_momentum(tree):
             "Proof. intros. reflexivity. Qed.\n")
 
 
+def tie_admm_order(tree):
+    """admm: `if order is None: order = 0` before the loop (the lines added by /repo a5b9e5b) = the model reads order None as Some 0"""
+    fn = _func(tree, "admm")
+    lp = _for_over(fn.body, "iteration")
+    ifs = [s for s in fn.body if isinstance(s, ast.If) and _is_none_test(s.test) == ("order", True)]
+    if len(ifs) != 1 or ifs[0].orelse or fn.body.index(ifs[0]) > fn.body.index(lp):
+        raise Untranslatable("`if order is None:` once, before the loop")
+    body = [s for s in ifs[0].body if not (isinstance(s, ast.Expr) and isinstance(s.value, ast.Constant))]
+    if not (len(body) == 1 and isinstance(body[0], ast.Assign) and isinstance(body[0].targets[0], ast.Name) and body[0].targets[0].id == "order" and _num(body[0].value) == "0"):
+        raise Untranslatable("`if order is None:` does not set order = 0")
+    if any(isinstance(n, ast.Assign) and any(isinstance(t, ast.Name) and t.id == "order" for t in n.targets) for n in ast.walk(lp)):
+        raise Untranslatable("order is re-assigned inside the loop")
+    return ("From TLV Require Import Model.NnlsAdmm.\n"
+            "Goal forall (solve : mat -> mat -> mat) (n_const : option nat) (k : @constr R) (UtM UtU x dual : mat) (m r n : nat) (tol : R),\n"
+            "  admm Rops solve n_const None k UtM UtU x dual m r n tol = admm Rops solve n_const (Some 0%nat) k UtM UtU x dual m r n tol.\n"
+            "Proof. intros. reflexivity. Qed.\n"
+            "Goal forall (n_const order : option nat) (k : @constr R) (T : mat),\n"
+            "  prox_call Rops n_const order k T = match n_const with None => Ok T | Some nc =>\n"
+            "    if Nat.ltb (match order with Some o => o | None => 0%nat end) nc then Ok (apply_constr Rops k T) else Err end.\n"
+            "Proof. intros. reflexivity. Qed.\n")
+
+
 def tie_admm_loop(tree):
     """admm, n_const not None: the loop body and the stopping rule, ENTRYWISE.  The loop body is executed symbolically (Entry: temporaries,
     re-association and other ring-equal rewrites pass); tl.solve's answer and proximal_operator's answer are atoms (matrices xs, xn of the
@@ -964,7 +987,8 @@ def ties(nnls_src, admm_src):
                           ("fista_step", tie_fista_step, t1), ("fista_loop_step", tie_fista_loop, t1), ("aset_step", tie_aset_step, t1),
                           ("admm_none", tie_admm_none, t2), ("hals_error_nonzero_rows", tie_hals_err_nz, t1), ("fista_entry", tie_fista_entry, t1),
                           ("admm_x_split", tie_admm_split, t2), ("aset_selection_termination", tie_aset_tests, t1),
-                          ("admm_loop_body_stop", tie_admm_loop, t2), ("fista_momentum", tie_fista_momentum, t1), ("hals_callback_exact", tie_hals_callback, t1)):
+                          ("admm_loop_body_stop", tie_admm_loop, t2), ("fista_momentum", tie_fista_momentum, t1), ("hals_callback_exact", tie_hals_callback, t1),
+                          ("admm_order_default", tie_admm_order, t2)):
         try:
             out.append((name, f(tree), None))
         except (Untranslatable, KeyError, IndexError, AttributeError, TypeError) as e:
